@@ -87,7 +87,7 @@ def plan(tier, seed):
     specs = []
     # the heaviest first
     for i in range(2 if q else 4):
-        specs.append({"kind": "dec_keys", "family": "rsa", "part": i, "parts": 2 if q else 4, "hostile": 1 if i == 0 else 0, "short": i == 0, "budget_s": B})
+        specs.append({"kind": "dec_keys", "family": "rsa", "part": i, "parts": 2 if q else 4, "hostile": 1, "short": i == 0, "budget_s": B})
     for g in (CURVE_GROUPS if q else [[c] for grp in CURVE_GROUPS for c in grp]):
         specs.append({"kind": "dec_keys", "family": "ecc", "curves": g, "hostile": 1 if q else 3, "budget_s": B})
     for i in range(1 if q else 2):
@@ -199,12 +199,12 @@ def _kw(mode):
     return {} if mode is None else {mode[0]: mode[1]}
 
 
-def enc_case(ctx, typ, desc, make, new_decoder, get, value, expected, mode=None, strict_modes=(False, True), witness_value=None):
+def enc_case(ctx, typ, desc, make, new_decoder, get, value, expected, mode=None, strict_modes=(False, True), witness_value=None, counter=None):
     """One encoder round trip.  make() -> library object to encode; new_decoder() -> fresh library object for decode;
     get(obj) -> decoded value; expected: bytes of the reference writer."""
     from vf.ctx import outcome
     ctx.case((typ,) + tuple(desc) + (mode,))
-    ctx.count("enc|" + typ)
+    ctx.count("enc|" + (counter or typ))
     if mode is not None:
         ctx.count("enc|%s_tag" % mode[0])
     wv = witness_value if witness_value is not None else repr(value)[:300]
@@ -220,10 +220,7 @@ def enc_case(ctx, typ, desc, make, new_decoder, get, value, expected, mode=None,
         for strict in strict_modes:
             def dec():
                 ob = new_decoder()
-                try:
-                    ob.decode(data, strict=strict)
-                except TypeError:
-                    ob.decode(data)
+                ob.decode(data, strict=strict)
                 return get(ob)
             o = outcome(dec)
             if o[0] == "exc":
@@ -263,8 +260,8 @@ def w_enc_der(spec, ctx, L):
                  witness_value=hex(v))
     for mode in modes31:
         for v in (0, 127, 128, -129, 2 ** 64, -(2 ** 1030)):
-            enc_case(ctx, "DerInteger_tagged", _idesc(v), lambda: asn1.DerInteger(v, **_kw(mode)), lambda: asn1.DerInteger(**_kw(mode)), lambda o: o.value, v,
-                     _tagged(der, der.enc_int(v), mode), mode, witness_value=hex(v))
+            enc_case(ctx, "DerInteger", _idesc(v), lambda: asn1.DerInteger(v, **_kw(mode)), lambda: asn1.DerInteger(**_kw(mode)), lambda o: o.value, v,
+                     _tagged(der, der.enc_int(v), mode), mode, witness_value=hex(v), counter="DerInteger_tagged")
     # ---- OBJECT IDENTIFIER
     ctx.op("enc_der", "oids")
     firsts = ["0.0", "0.39", "1.0", "1.39", "2.0", "2.39", "2.40", "2.47", "2.48", "2.999", "2.16303", "2.16304", "2.%d" % (2 ** 70)]
@@ -349,15 +346,19 @@ def w_enc_der(spec, ctx, L):
                 v = rng.choice([0, 1, -1, 127, 128, -128, -129, 255, 256, rng.getrandbits(rng.choice([8, 31, 64, 521, 1024])),
                                 -rng.getrandbits(rng.choice([8, 31, 64, 200]))])
                 return v, der.enc_int(v), v, depth
-            raw = rng.choice([der.enc_null(), der.enc_octets(rng.randbytes(rng.choice([0, 3, 130]))), der.enc_oid("1.2.840.113549.1.1.1"),
-                              der.enc_bool(True), der.enc_bitstring(rng.randbytes(4)), der.enc_tagged(0, der.enc_int(5)),
-                              der.enc_tagged(1, der.enc_octets(b"k"), explicit=False), der.enc_set_of([der.enc_int(2), der.enc_int(1)])])
-            form = rng.random()
-            if form < 0.5:
+            blob = rng.randbytes(rng.choice([0, 3, 130]))
+            make, raw = rng.choice([
+                (lambda: asn1.DerNull(), der.enc_null()),
+                (lambda: asn1.DerOctetString(blob), der.enc_octets(blob)),
+                (lambda: asn1.DerObjectId("1.2.840.113549.1.1.1"), der.enc_oid("1.2.840.113549.1.1.1")),
+                (lambda: asn1.DerBoolean(True), der.enc_bool(True)),
+                (lambda: asn1.DerBitString(blob), der.enc_bitstring(blob)),
+                (lambda: asn1.DerInteger(5, explicit=0), der.enc_tagged(0, der.enc_int(5))),
+                (lambda: asn1.DerOctetString(b"k", implicit=1), der.enc_tagged(1, der.enc_octets(b"k"), explicit=False)),
+                (lambda: asn1.DerSetOf([2, 1]), der.enc_set_of([der.enc_int(2), der.enc_int(1)]))])
+            if rng.random() < 0.5:
                 return raw, raw, raw, depth
-            obj = asn1.DerObject()
-            obj.decode(raw)
-            return obj, raw, raw, depth
+            return make(), raw, raw, depth
         n = rng.choice([0, 1, 2, 3, 4, 7])
         members = [gen(depth + 1, maxdepth) for _ in range(n)]
         if depth + 1 < maxdepth and rng.random() < 0.6:
